@@ -272,7 +272,7 @@ func run(c *runner.Ctx, idx int) {
 	} else {
 		huge = (idx-len(corpus))%8 == 3
 		carry := (idx-len(corpus))%8 == 5
-		gen = prog.RandomMovie(c.Rand, prog.MovieOptions{Entries: entries, MultiDesc: true, Huge: huge, CarryProbe: carry, ZeroSizes: true, LateSync: true})
+		gen = prog.RandomMovie(c.Rand, prog.MovieOptions{Entries: entries, MultiDesc: true, Huge: huge, CarryProbe: carry, ZeroSizes: true, LateSync: true, ShortEdits: true})
 		if carry {
 			c.Count("carry_probe_movies", 1)
 		}
